@@ -4,24 +4,73 @@ From SV Require Import KV.KvBase KV.KvLex KV.KvParse KV.KvSer KV.KvSym KV.KvLexP
 Import ListNotations.
 Open Scope N_scope.
 
+Definition doc_values_ok (d : list kv) : bool := forallb values_ok d.
+
+Lemma doc_ok_of P O : pcfg_ok P = true -> forall d,
+  po_newline_keys O || doc_names_ok d = true -> po_newline_values O || doc_values_ok d = true ->
+  forallb (kv_ok P O) d = true.
+Proof.
+  intros HP d Hn Hv. apply forallb_forall. intros k Hin. apply kv_ok_of; [exact HP| |].
+  - destruct (po_newline_keys O); [reflexivity|]. cbn [orb] in *. unfold doc_names_ok in Hn.
+    rewrite forallb_forall in Hn. now apply Hn.
+  - destruct (po_newline_values O); [reflexivity|]. cbn [orb] in *. unfold doc_values_ok in Hv.
+    rewrite forallb_forall in Hv. now apply Hv.
+Qed.
+
 Section RT.
   Variable C : sercfg.
   Variable E : escfg.
+  Variable P : parsecfg.
   Hypothesis HC : cfg_ok C = true.
   Hypothesis HE : esc_ok E = true.
+  Hypothesis HP : pcfg_ok P = true.
 
-  Lemma roundtrip_doc flag_on o d : ws_opts o = true -> doc_names_ok d = true ->
-    parse_kv E flag_on (serialise_doc C E o d) = POk d.
+  (** Any setting of newline_keys / newline_values / single_line, single_block off. *)
+  Lemma roundtrip_doc_opts flag_on O o d : po_single_block O = false -> ws_opts o = true ->
+    po_newline_keys O || doc_names_ok d = true -> po_newline_values O || doc_values_ok d = true ->
+    parse_kv_opts P O E flag_on (serialise_doc C E o d) = POk d.
   Proof.
-    intros HO Hd. unfold parse_kv. rewrite (lex_serialise_doc C E o HC HE HO d).
-    now apply parse_toks_doc.
+    intros Hsb HO Hn Hv. unfold parse_kv_opts. rewrite (lex_serialise_doc C E o HC HE HO d).
+    apply parse_toks_doc_opts; [exact Hsb | now apply doc_ok_of].
+  Qed.
+
+  Lemma roundtrip_node_opts flag_on O o k : po_single_block O = false -> ws_opts o = true ->
+    po_newline_keys O || names_ok k = true -> po_newline_values O || values_ok k = true ->
+    parse_kv_opts P O E flag_on (serialise_node C E o k) = POk [k].
+  Proof.
+    intros Hsb HO Hn Hv. unfold parse_kv_opts. rewrite (lex_serialise_node C E o HC HE HO k).
+    apply parse_toks_node_opts; [exact Hsb | now apply kv_ok_of].
+  Qed.
+
+  (** single_block=True: the node itself comes back (not wrapped in a root), also when more text follows. *)
+  Lemma roundtrip_single_block_node flag_on O o k : po_single_block O = true -> ws_opts o = true ->
+    po_newline_keys O || names_ok k = true -> po_newline_values O || values_ok k = true ->
+    parse_kv_opts P O E flag_on (serialise_node C E o k) = PNode k.
+  Proof.
+    intros Hsb HO Hn Hv. unfold parse_kv_opts. rewrite (lex_serialise_node C E o HC HE HO k).
+    pose proof (parse_toks_single_block P O flag_on k [] None Hsb (kv_ok_of P O HP k Hn Hv)) as H.
+    unfold toks_doc in H. cbn [flat_map] in H. now rewrite app_nil_r in H.
+  Qed.
+
+  Lemma roundtrip_single_block_doc flag_on O o k ks : po_single_block O = true -> ws_opts o = true ->
+    po_newline_keys O || names_ok k = true -> po_newline_values O || values_ok k = true ->
+    parse_kv_opts P O E flag_on (serialise_doc C E o (k :: ks)) = PNode k.
+  Proof.
+    intros Hsb HO Hn Hv. unfold parse_kv_opts. rewrite (lex_serialise_doc C E o HC HE HO (k :: ks)).
+    exact (parse_toks_single_block P O flag_on k ks None Hsb (kv_ok_of P O HP k Hn Hv)).
+  Qed.
+
+  (** Default options. *)
+  Lemma roundtrip_doc flag_on o d : ws_opts o = true -> doc_names_ok d = true ->
+    parse_kv P E flag_on (serialise_doc C E o d) = POk d.
+  Proof.
+    intros HO Hd. apply roundtrip_doc_opts; [reflexivity | exact HO | exact Hd | reflexivity].
   Qed.
 
   Lemma roundtrip_node flag_on o k : ws_opts o = true -> names_ok k = true ->
-    parse_kv E flag_on (serialise_node C E o k) = POk [k].
+    parse_kv P E flag_on (serialise_node C E o k) = POk [k].
   Proof.
-    intros HO Hk. unfold parse_kv. rewrite (lex_serialise_node C E o HC HE HO k).
-    now apply parse_toks_node.
+    intros HO Hk. apply roundtrip_node_opts; [reflexivity | exact HO | exact Hk | reflexivity].
   Qed.
 
   Lemma indent_independent_tokens o1 o2 d : ws_opts o1 = true -> ws_opts o2 = true ->
@@ -46,7 +95,8 @@ Definition ref_escfg : escfg := {|
   e_excl := [63; 47] |}.
 
 (** The templates of _serialise with the block name passed through escape_text. *)
-Definition ref_sercfg (head_name : piece) : sercfg := {|
+Definition ref_sercfg_rt (rt : roottest) (head_name : piece) : sercfg := {|
+  t_root_test := rt;
   t_open_ind := [PVar VIndent; PLit [123; 10]];
   t_close_ind := [PVar VIndent; PLit [125; 10]];
   t_open_plain := [PLit [123; 10]];
@@ -56,6 +106,13 @@ Definition ref_sercfg (head_name : piece) : sercfg := {|
   t_tail := [PVar VCurIndent; PVar VCloseBrace];
   t_leaf := [PVar VCurIndent; PLit [34]; PEsc FName; PLit [34; 32; 34]; PEsc FValue; PLit [34; 10]];
   t_root_indent := [] |}.
+Definition ref_sercfg := ref_sercfg_rt RTIsNone.
+
+(** The two 'Illegal newline' tests of Keyvalues.parse ('\n' in s or '\r' in s), replacement tests guarded. *)
+Definition ref_pcfg : parsecfg :=
+  {| p_key_break := BTChars [10; 13]; p_value_break := BTChars [10; 13]; p_replace_guard := true; p_single_block_guard := true |}.
+Lemma ref_pcfg_ok : pcfg_ok ref_pcfg = true.
+Proof. vm_compute. reflexivity. Qed.
 
 Lemma ref_cfg_ok : cfg_ok (ref_sercfg (PEsc FName)) = true.
 Proof. vm_compute. reflexivity. Qed.
@@ -73,21 +130,21 @@ Proof. vm_compute. reflexivity. Qed.
 
 Lemma raw_block_name_refuted :
   doc_names_ok raw_block_witness = true /\
-  parse_kv ref_escfg (fun _ => false)
+  parse_kv ref_pcfg ref_escfg (fun _ => false)
     (serialise_doc (ref_sercfg (PRaw FName)) ref_escfg default_opts raw_block_witness)
   = PErr (ELex LUnterminated).
 Proof. split; vm_compute; reflexivity. Qed.
 
 (** A name with a line break is outside the format: the parser rejects the (correctly escaped) text. *)
 Lemma linebreak_name_refuted :
-  parse_kv ref_escfg (fun _ => false)
+  parse_kv ref_pcfg ref_escfg (fun _ => false)
     (serialise_doc (ref_sercfg (PEsc FName)) ref_escfg default_opts [Leaf [97; 10] [98]])
   = PErr ENewlineKey.
 Proof. vm_compute. reflexivity. Qed.
 
 (** A non-whitespace indent string is outside the clause "apart from whitespace": the text changes tokens. *)
 Lemma nonws_indent_refuted :
-  parse_kv ref_escfg (fun _ => false)
+  parse_kv ref_pcfg ref_escfg (fun _ => false)
     (serialise_doc (ref_sercfg (PEsc FName)) ref_escfg
        {| o_indent := [120]; o_indent_braces := true; o_start := [] |} [Block [97] [Leaf [98] [99]]])
   <> POk [Block [97] [Leaf [98] [99]]].
@@ -96,4 +153,46 @@ Proof. vm_compute. discriminate. Qed.
 (** An escape table that leaves the quote unescaped is rejected by [esc_ok]. *)
 Lemma esc_without_quote_rejected :
   esc_ok {| e_table := [(110, 10); (116, 9); (114, 13); (92, 92)]; e_excl := [] |} = false.
+Proof. vm_compute. reflexivity. Qed.
+
+(** Seeded fault class "root test by truth value": with [not self._real_name] in place of [is None] a block
+    named by the empty string loses its header and braces; [cfg_ok] rejects that test. *)
+Definition falsy_root_witness : list kv := [Block [] [Leaf [97] [98]]].
+Lemma falsy_root_test_rejected : cfg_ok (ref_sercfg_rt RTFalsy (PEsc FName)) = false.
+Proof. vm_compute. reflexivity. Qed.
+Lemma falsy_root_test_refuted :
+  doc_names_ok falsy_root_witness = true /\
+  parse_kv ref_pcfg ref_escfg (fun _ => false)
+    (serialise_doc (ref_sercfg_rt RTFalsy (PEsc FName)) ref_escfg default_opts falsy_root_witness)
+  = POk [Leaf [97] [98]].
+Proof. split; vm_compute; reflexivity. Qed.
+
+(** Seeded fault class "more characters count as a line break in a key": a parser that also rejects a
+    vertical tab refuses text the writer produced for a legal name; [pcfg_ok] rejects that test. *)
+Definition wide_break_pcfg : parsecfg :=
+  {| p_key_break := BTChars [10; 13; 11]; p_value_break := BTChars [10; 13]; p_replace_guard := true; p_single_block_guard := true |}.
+Lemma wide_key_break_rejected : pcfg_ok wide_break_pcfg = false.
+Proof. vm_compute. reflexivity. Qed.
+Lemma wide_key_break_refuted :
+  doc_names_ok [Leaf [97; 11; 98] [99]] = true /\
+  parse_kv wide_break_pcfg ref_escfg (fun _ => false)
+    (serialise_doc (ref_sercfg (PEsc FName)) ref_escfg default_opts [Leaf [97; 11; 98] [99]])
+  = PErr ENewlineKey.
+Proof. split; vm_compute; reflexivity. Qed.
+
+(** newline_keys=True lifts the restriction on names (theorem [roundtrip_doc_opts]); the witness of
+    [linebreak_name_refuted] then comes back. *)
+Lemma linebreak_name_newline_keys :
+  parse_kv_opts ref_pcfg {| po_newline_keys := true; po_newline_values := true; po_single_line := false;
+                            po_single_block := false |} ref_escfg (fun _ => false)
+    (serialise_doc (ref_sercfg (PEsc FName)) ref_escfg default_opts [Leaf [97; 10] [98]])
+  = POk [Leaf [97; 10] [98]].
+Proof. vm_compute. reflexivity. Qed.
+
+(** newline_values=False: values with a line break are refused, so the premise on values is needed. *)
+Lemma linebreak_value_refuted :
+  parse_kv_opts ref_pcfg {| po_newline_keys := false; po_newline_values := false; po_single_line := false;
+                            po_single_block := false |} ref_escfg (fun _ => false)
+    (serialise_doc (ref_sercfg (PEsc FName)) ref_escfg default_opts [Leaf [97] [98; 13]])
+  = PErr ENewlineValue.
 Proof. vm_compute. reflexivity. Qed.
